@@ -147,6 +147,8 @@ func runC16(c *Ctx, r *Report) {
 	r.Rule("C16.R1", "token text = bytes spanned: in every lexer function that returns a slice of the input as token text, the low bound is the token start (position at entry minus the byte already consumed) and the high bound is the current position at that return (no position write between reading the bound and returning, or the position is rewound to the bound)")
 	r.Rule("C16.R2", "constant tokens: on every path of NextToken to a return of a one-byte constant token (or ILLEGAL) the position advanced by exactly 1 after skipping whitespace, and by exactly 2 for two-byte tokens; unchecked table lookups are only reached with byte pairs / bytes that are registered (path conditions evaluated on all 256x256 byte pairs)")
 	r.Rule("C16.R3", "interning and keywords: identifier text goes only through LookupIdent, which consults the keyword table before interning an IDENT; the keyword table is filled for the whole identity-token range; value tokens are built through Intern; nothing reachable from token production (NextToken, Intern, InternToken, LookupIdent) replaces, clears or deletes from the interning table")
+	r.Rule("C16.R6", "escape readers consume validated bytes only: in the lexer functions reachable from readString every readChar() sits on the true edge of a byte predicate applied to peekChar() that rejects both quote characters and NUL (folded on all 256 bytes)")
+	c.checkEscapeReaders(r, "C16.R6")
 	r.Rule("C16.R4", "sticky end marker: NextToken returns the end marker only when the position is past the end of the input (a NUL byte inside the input is not the end)")
 
 	li := c.lexerInfo()
